@@ -10,6 +10,9 @@ import hashlib as _hashlib
 import hmac as _hmac
 import os as _os
 import sys
+import types
+
+_SysModules = object()
 
 
 def repo_modules():
@@ -26,6 +29,9 @@ class ModProxy:
     def __getattr__(self, k):
         return getattr(self.__dict__["_real"], k)
 
+    def __repr__(self):
+        return "<stand-in for %r>" % (self.__dict__["_real"],)
+
 
 class EnvPatch:
     def __init__(self):
@@ -35,6 +41,8 @@ class EnvPatch:
         """every global of the repository's modules that is `real` (or an earlier stand-in for it) now refers to `repl`;
         returns the number of bindings changed"""
         n = 0
+        if isinstance(real, types.ModuleType) and only is None:
+            self.swap_sys_modules(real, repl)
         for m in repo_modules():
             if only is not None and m.__name__ not in only:
                 continue
@@ -47,9 +55,21 @@ class EnvPatch:
                     n += 1
         return n
 
+    def swap_sys_modules(self, real, repl):
+        """an `import x` / `from x import f` statement INSIDE a function of the repository is executed at call time and takes
+        whatever sys.modules holds: the stand-in goes there too for the duration of the patch (it forwards everything it does
+        not override to the real module)"""
+        for key, mod in list(sys.modules.items()):
+            if mod is real or (mod is not None and getattr(mod, "__dict__", {}).get("_real") is real and mod is not repl):
+                self.undo.append((_SysModules, key, mod))
+                sys.modules[key] = repl
+
     def restore(self):
         for m, k, v in reversed(self.undo):
-            m.__dict__[k] = v
+            if m is _SysModules:
+                sys.modules[k] = v
+            else:
+                m.__dict__[k] = v
         self.undo = []
 
     def __enter__(self):
@@ -62,8 +82,10 @@ class EnvPatch:
     def urandom(self, fn, prefer=("websocket._handshake",)):
         """os.urandom as seen from the module(s) that draw the handshake key (`prefer`); if no such binding exists there (the
         drawing code was moved), from every repository module"""
+        proxy = ModProxy(_os, urandom=fn)
+        self.swap_sys_modules(_os, proxy)
         for only in (prefer, None):
-            n = self.replace(_os, ModProxy(_os, urandom=fn), only) + self.replace(_os.urandom, fn, only)
+            n = self.replace(_os, proxy, only) + self.replace(_os.urandom, fn, only)
             if n:
                 return n
         return 0
